@@ -20,6 +20,7 @@ import (
 	"strconv"
 	"strings"
 	"sync"
+	"syscall"
 	"time"
 
 	"verif/instr"
@@ -141,7 +142,31 @@ func main() {
 		c := exec.Command(bin, "-test.run", "^Test"+id+"$", "-test.timeout", "6h", "-test.v")
 		c.Env = append(os.Environ(), "VERIF_CFG="+string(j), "VERIF_REPO="+repo)
 		c.Dir = cfg.Scratch
-		out, err := c.CombinedOutput()
+		var outBuf bytes.Buffer
+		c.Stdout, c.Stderr = &outBuf, &outBuf
+		err := c.Start()
+		if err == nil {
+			// watchdog: a worker that overruns its budget by far is killed (tooling trouble, never a verdict)
+			limit := time.Duration(cfg.MaxSeconds*3+180) * time.Second
+			done := make(chan error, 1)
+			go func() { done <- c.Wait() }()
+			select {
+			case err = <-done:
+			case <-time.After(limit):
+				c.Process.Signal(syscall.SIGQUIT)
+				select {
+				case <-done:
+				case <-time.After(5 * time.Second):
+					c.Process.Kill()
+					<-done
+				}
+				err = fmt.Errorf("worker %s exceeded its watchdog of %v and was killed", name, limit)
+			}
+		}
+		out := outBuf.Bytes()
+		if len(out) > 1<<20 {
+			out = out[len(out)-(1<<20):]
+		}
 		b, rerr := os.ReadFile(cfg.Out)
 		if rerr != nil {
 			return nil, string(out), fmt.Errorf("worker %s produced no result (%v)", name, err)
